@@ -8,8 +8,18 @@ out=$(mktemp -d /tmp/upv-replay.XXXXXX)
 L="$REPO/lib/upipe/.libs $REPO/lib/upipe-modules/.libs $REPO/lib/upump-ev/.libs $REPO/lib/upipe-pthread/.libs"
 LF=""; LP=""
 for d in $L; do LF="$LF -L$d"; LP="$LP:$d"; done
-cc -g -O0 -I$REPO/include -I$REPO -o $out/a.out "$src" $LF -lupipe_modules -lupipe "$@" -lev -lpthread || exit 2
-LD_LIBRARY_PATH=$LP timeout 20 $out/a.out; rc=$?
+HERE=$(dirname "$0")
+XS=""
+for x in $EXTRA_SRC; do XS="$XS $REPO/$x"; done
+cc -g -O0 -I$REPO/include -I$REPO -I$HERE/../../stubs -DHAVE_CONFIG_H -o $out/a.out "$src" $XS $LF -lupipe_modules -lupipe "$@" -lev -lpthread || exit 2
+# EXTRA_SRC: repo-relative sources of libraries the baseline does not build
+# (lib/upipe-ts, lib/upipe-framers), compiled against /verif/stubs
+# VALGRIND=1: run under valgrind, exit 1 on any reported error
+if [ -n "$VALGRIND" ]; then
+    LD_LIBRARY_PATH=$LP timeout 120 valgrind -q --error-exitcode=1 $out/a.out; rc=$?
+else
+    LD_LIBRARY_PATH=$LP timeout 20 $out/a.out; rc=$?
+fi
 rm -rf $out
 echo "exit=$rc"
 exit $rc
